@@ -460,3 +460,41 @@ def with_helpers(ctx, fi, exclude=(), only_private=True, depth=3, inline_locals=
     _hcache[key] = out
     _keep.append(fi.node)
     return out
+
+
+# ---------------------------------------------------------------- early exits as else-branches
+def else_normal(fn: ast.FunctionDef) -> ast.FunctionDef:
+    """Copy of fn in which `if T: ...; return/raise/continue/break` followed by more statements is rewritten as
+    `if T: ... else: <the following statements>` (recursively): a chain of guard clauses and an if/elif/else chain
+    become the same tree."""
+    k = ("else", id(fn))
+    if k in _cache:
+        return _cache[k]
+    new = copy.deepcopy(fn)
+
+    def term(body):
+        return bool(body) and isinstance(body[-1], (ast.Return, ast.Raise, ast.Continue, ast.Break))
+
+    def fix(body):
+        i = 0
+        while i < len(body):
+            s = body[i]
+            for fld in ("body", "orelse", "finalbody"):
+                sub = getattr(s, fld, None)
+                if isinstance(sub, list) and sub and isinstance(sub[0], ast.stmt) and not isinstance(s, (ast.FunctionDef, ast.AsyncFunctionDef, ast.ClassDef)):
+                    fix(sub)
+            if isinstance(s, ast.Try):
+                for h in s.handlers:
+                    fix(h.body)
+            if isinstance(s, ast.If) and not s.orelse and term(s.body) and body[i + 1:]:
+                rest = body[i + 1:]
+                del body[i + 1:]
+                s.orelse = rest
+                fix(s.orelse)
+                return
+            i += 1
+
+    fix(new.body)
+    _cache[k] = new
+    _keep.append(fn)
+    return new
